@@ -45,7 +45,7 @@ RULE = ("(1) exhaustive: every weak ordering of n<=5 (quick) / n<=6 (thorough) s
         "non-default index, another column order, another name for the label column, copy_data=False, one class only "
         "(enforce_checks=False), and several calls on ONE dataset object; extreme rescalings also here; (8) outside the "
         "model (property oracle alone, extra_checks): n = 33 000 and 70 000 (quick) / 20 000 .. 131 100 (thorough), i.e. counts past 2^15, 2^16, 2^17. "
-        "Scores of a float dtype numba cannot type (float16, byte-swapped) are generated and reported under a finding key. "
+        "Scores of a float dtype numba cannot type (float16, byte-swapped) are refused by tdc and not generated (observation, see reviews/C01.md). "
         "distinct = distinct case; non-trivial = tdc: a tie group of size>=2 or a decoy ranked above a target; labels: "
         "additionally at least one target is accepted (+1) and at least one is not (0)")
 ASSUMPTIONS = [
